@@ -9,7 +9,7 @@
     list of TCP segments the connection will deliver. *)
 From Coq Require Import List NArith Bool.
 From Tongo Require Import Lib.Bits Spec.AdnlSpec Model.AdnlT
-  Proofs.AdnlTP Proofs.AdnlTP2 Proofs.AdnlTP3 Proofs.AdnlTP4.
+  Proofs.AdnlTP Proofs.AdnlTP2 Proofs.AdnlTP3 Proofs.AdnlTP4 Proofs.AdnlTP5.
 Import ListNotations.
 Local Open Scope N_scope.
 
@@ -213,6 +213,36 @@ Proof. exact (truncated_stream H cstate next H_len). Qed.
 Theorem C11_recv_total :
   forall r s, snd (recv_all r s) <> PFuel.
 Proof. exact (recv_all_no_fuel H cstate next). Qed.
+
+(** Several goroutines sending on ONE connection (Client requests, the ping
+    loop): Connection.Send holds c.mu around encrypt + write.  For every number
+    of senders, every queue of packets per sender and EVERY schedule of their
+    Lock / Encrypt / Write / Unlock steps (steps blocked by the mutex do not
+    happen): whenever the mutex is free the wire carries exactly send_all of the
+    packets in the order in which the mutex was acquired, with the cipher in
+    the matching state - so C11_stream_roundtrip / C11_server_receives apply to
+    it; at every moment the wire is a prefix of that stream; every sender's
+    packets keep their order. *)
+Theorem C11_lock_serialises :
+  forall tx0 queues sched,
+  let st := fst (crun H cstate next false sched (cinit cstate tx0 queues) []) in
+  cs_owner st = None ->
+  cs_active st = [] /\
+  cs_wire st = fst (send_all H cstate next tx0 (map snd (cs_log st))) /\
+  cs_tx st = snd (send_all H cstate next tx0 (map snd (cs_log st))).
+Proof. exact (lock_serialises H cstate next). Qed.
+
+Theorem C11_lock_wire_prefix :
+  forall tx0 queues sched,
+  let st := fst (crun H cstate next false sched (cinit cstate tx0 queues) []) in
+  exists rest, fst (send_all H cstate next tx0 (map snd (cs_log st))) = cs_wire st ++ rest.
+Proof. exact (lock_wire_prefix H cstate next). Qed.
+
+Theorem C11_per_sender_order :
+  forall early tx0 queues sched,
+  let st := fst (crun H cstate next early sched (cinit cstate tx0 queues) []) in
+  forall j, sent_by j (cs_log st) ++ nth j (cs_queues st) [] = nth j queues [].
+Proof. exact (per_sender_order H cstate next). Qed.
 End C11.
 
 Print Assumptions C11_handshake_agrees.
@@ -221,6 +251,7 @@ Print Assumptions C11_stream_roundtrip.
 Print Assumptions C11_single_byte_corruption.
 Print Assumptions C11_truncated_stream.
 Print Assumptions C11_parse_segmentation.
+Print Assumptions C11_lock_serialises.
 
 (** The premises are satisfiable: a toy instance (H = 32 bytes derived from the
     length and the byte sum, keystream = counter bytes) sends two packets, cut
@@ -244,3 +275,35 @@ Example C11_example_corruption :
   let ct := fst (AdnlT.xor_stream N toy_next 5 (frame toyH (repeat 1 32) [10; 20; 30])) in
   AdnlT.recv_all toyH N toy_next [set_nth 37 99 ct] 5 = ([], PSum).
 Proof. vm_compute. reflexivity. Qed.
+
+(** The variant that releases the mutex before encrypting and writing
+    (early_unlock) is refuted: two senders, one packet each; sender 0 encrypts,
+    sender 1 encrypts and writes, then sender 0 writes.  Both are done, the
+    mutex is free, but the wire is not the stream of the two packets in either
+    order and the receiver rejects it at the first frame. *)
+Definition toy_m0 : msg := (repeat 1 32, [10; 20; 30]).
+Definition toy_m1 : msg := (repeat 2 32, [7]).
+Definition toy_sched : list (nat * action) :=
+  [(0, ALock); (0, AUnlock); (0, AEncrypt);
+   (1, ALock); (1, AUnlock); (1, AEncrypt); (1, AWrite); (0, AWrite)]%nat.
+
+Theorem C11_early_unlock_refuted :
+  let st := fst (crun toyH N toy_next true toy_sched (cinit N 5 [[toy_m0]; [toy_m1]]) []) in
+  cs_owner st = None /\ cs_active st = [] /\ cs_queues st = [[]; []] /\
+  map snd (cs_log st) = [toy_m0; toy_m1] /\
+  cs_wire st <> fst (send_all toyH N toy_next 5 [toy_m0; toy_m1]) /\
+  cs_wire st <> fst (send_all toyH N toy_next 5 [toy_m1; toy_m0]) /\
+  AdnlT.recv_all toyH N toy_next [cs_wire st] 5 = ([], PLen).
+Proof.
+  vm_compute. repeat split; discriminate.
+Qed.
+
+(* the same schedule under the real locking discipline: the steps of sender 1
+   are blocked until sender 0 unlocks, the stream is intact *)
+Example C11_example_locked :
+  let sched := [(0, ALock); (1, ALock); (0, AEncrypt); (1, AEncrypt); (1, ALock); (0, AWrite);
+                (0, AUnlock); (1, ALock); (1, AEncrypt); (1, AWrite); (1, AUnlock)]%nat in
+  let st := fst (crun toyH N toy_next false sched (cinit N 5 [[toy_m0]; [toy_m1]]) []) in
+  cs_owner st = None /\
+  AdnlT.recv_all toyH N toy_next [cs_wire st] 5 = ([[10; 20; 30]; [7]], PEof).
+Proof. vm_compute. split; reflexivity. Qed.
